@@ -20,8 +20,10 @@ var Check = core.Check{
 	ID:     "C03",
 	Level:  "exploration",
 	Shards: 16,
-	Run:    run,
-	Replay: replay,
+	// a decoder crash is property C06's subject; here the file is recorded as inconclusive
+	CrashIsInconclusive: true,
+	Run:                 run,
+	Replay:              replay,
 }
 
 // Case is the replayable unit.
